@@ -1,5 +1,5 @@
 SPECIFICATION FairSpec
-CONSTANTS N = 3 P = 2 FaultKs = {1, 2, 3} FaultPoints = {"before", "mid", "after"} FaultModes = {"kill", "exit3", "raise"} Fixed = FALSE
+CONSTANTS N = 3 P = 2 FaultKs = {1, 2, 3} FaultPoints = {"before", "mid", "after"} FaultModes = {"kill", "exit3", "raise", "term"} Fixed = FALSE
 INVARIANT TypeOK
 INVARIANT FailNeverReturns
 INVARIANT RaisedHasNoResults
